@@ -1412,6 +1412,13 @@ impl PayloadEncode for ScmpMessageUnknown {
 
     #[inline]
     fn wire_valid(&self) -> Result<(), InvalidStructureError> {
+        // A known type number would be decoded as that message type (with its own minimum size).
+        if !matches!(
+            ScmpMessageType::from(self.message_type),
+            ScmpMessageType::Unknown(_)
+        ) {
+            return Err("ScmpMessageUnknown must not carry the type number of a known SCMP message".into());
+        }
         Ok(())
     }
 
